@@ -88,8 +88,10 @@
     * validated buckets and `ensureIV` inside `CsigOK`: exactly what the encoder checks; without
       them `MarshalCBOR` returns an error and nothing reaches the wire.
     * the depth clauses (`d + 2 ≤ maxNested` per countersignature, `d + 1` per list) and
-      `≤ maxElems`: the decoder's `MaxNestedLevels` 32 / `MaxArrayElements` 131072; the encoder has
-      no such limits (same asymmetry as `value_roundtrip_nested_needs_depth`,
+      `≤ maxElems`: the decoder's `MaxNestedLevels` 32 / `MaxArrayElements` 131072; the encoder
+      applies them only to each freshly encoded unprotected bucket taken on its own
+      (headers.go:256, `C08.fresh_unprotected_bucket_wellformed`), not at the depth the bucket
+      ends up at (same asymmetry as `value_roundtrip_nested_needs_depth`,
       `sign1_wire_nested_needs_depth2`, `signmsg_wire_flat_needs_hn`).  A countersignature adds
       TWO levels (its array and its unprotected map), so at most 15 countersignatures can be
       nested inside the unprotected bucket of a message.
@@ -587,27 +589,32 @@ theorem ubucket_ok (d : Nat) (u : GoMap) (hent : ∀ e ∈ u, EOK (d + 1) e)
     labelsOK_C (sortEntries u) [] (fun e he => (hent e (hmem e he)).1) hoks.2 (by intro e _; rfl)
   have hdec := decUnprotPairs_C (sortEntries u)
     (fun e he => ⟨(hent e (hmem e he)).1, (hent e (hmem e he)).2.2.2.2.2⟩)
-  refine ⟨?_, ?_, ?_, ?_, ?_⟩
-  · cases u with
-    | nil =>
-      simp only [encodeBucket, Bool.false_eq_true, if_false, umapWire_nil_bytes]
-    | cons e es =>
-      have hv' : encCfg.validate (e :: es) false = true := hv
-      simp only [encodeBucket, hv', Bool.not_true, Bool.false_eq_true, if_false, hep,
-        umapWire_bytes]
-  · simp only [umapWire, Wire.wf, List.length_map, sortEntries_length, shortest_fits_elems hlen,
+  have hwf : (umapWire u).wf = true := by
+    simp only [umapWire, Wire.wf, List.length_map, sortEntries_length, shortest_fits_elems hlen,
       Bool.true_and]
     rw [wfPairs_iff]
     intro w hw
     obtain ⟨e, he, rfl⟩ := List.mem_map.mp hw
     exact ⟨valWire_wf (hent e (hmem e he)).1.flatVal, (hent e (hmem e he)).2.2.1⟩
-  · intro t
+  have hlim : ∀ t, (umapWire u).inLimits t d = true := by
+    intro t
     simp only [umapWire, Wire.inLimits, List.length_map, sortEntries_length, hd, hlen, decide_true,
       Bool.true_and]
     rw [inLimitsPairs_iff]
     intro w hw
     obtain ⟨e, he, rfl⟩ := List.mem_map.mp hw
     exact ⟨valWire_inLimits _ _ _, (hent e (hmem e he)).2.2.2.1 t⟩
+  refine ⟨?_, hwf, hlim, ?_, ?_⟩
+  · cases u with
+    | nil =>
+      simp only [encodeBucket, Bool.false_eq_true, if_false, umapWire_nil_bytes]
+    | cons e es =>
+      have hv' : encCfg.validate (e :: es) false = true := hv
+      -- `UnprotectedHeader.MarshalCBOR`'s tags-forbidden well-formedness pass, from depth 0
+      have hw := wellformedNoTags_bytes_at hwf (hlim false)
+      rw [umapWire_bytes] at hw
+      simp only [encodeBucket, hv', Bool.not_true, Bool.false_eq_true, if_false, hep,
+        umapWire_bytes, hw, if_true]
   · simp only [umapWire, Wire.hasTag]
     rw [hasTagPairs_iff]
     intro w hw
@@ -1168,7 +1175,8 @@ theorem exU4_enc :
     encodeBucket encCfg false none [(lbl 4, .bytes [0x32])] = some [0xa1, 0x04, 0x41, 0x32] := by
   simp [encodeBucket, encCfg, validateHeaderParameters, validateLoop, normalizeLabel, wrap64,
     checkParam, lbl, canBstr, encodePairs, encodeAny, encInt, encHead, encBstr, HW.shortest, headBytes,
-    sortPairs, concatPairs]
+    sortPairs, concatPairs, wellformedNoTags, parseTop, fuelFor, parseItem, parsePairs, parseHead,
+    maxNested, maxElems]
 
 theorem protOK_alg (a : Int) (P : Bytes) (ha : int64Range a)
     (he : encodeBucket encCfg true none [(lbl 1, .alg a)] = some P)
@@ -1262,13 +1270,17 @@ theorem exU1_enc : encodeBucket encCfg false none exU1 = some exU1Bytes := by
     fun _ _ => List.mergeSort_of_pairwise (by simp; decide)
   simp only [exU1, lbl] at hv
   simp [exU1, encodeBucket, hv, encodePairs, encodeAny, encodeList, cs1_enc, cs2_enc, lbl, encInt,
-    encBstr, encHead, HW.shortest, headBytes, hs, concatPairs, exU1Bytes]
+    encBstr, encHead, HW.shortest, headBytes, hs, concatPairs, exU1Bytes, cs1Bytes, cs2Bytes,
+    wellformedNoTags, parseTop, fuelFor, parseItem, parseItems, parsePairs, parseHead, maxNested,
+    maxElems]
 
 theorem exU2_enc : encodeBucket encCfg false none exU2 = some exU2Bytes := by
   have hv : encCfg.validate exU2 false = true := exU2_valid
   simp only [exU2, lbl] at hv
   simp [exU2, encodeBucket, hv, encodePairs, encodeAny, cs1_enc, lbl, encInt,
-    encHead, HW.shortest, headBytes, sortPairs, concatPairs, exU2Bytes]
+    encHead, HW.shortest, headBytes, sortPairs, concatPairs, exU2Bytes, cs1Bytes,
+    wellformedNoTags, parseTop, fuelFor, parseItem, parseItems, parsePairs, parseHead, maxNested,
+    maxElems]
 
 theorem protWire_bytes_of {p : GoMap} {P : Bytes} (hp : ProtOK p)
     (he : encodeBucket encCfg true none p = some P) : (protWire p).bytes = P := by
@@ -1438,7 +1450,8 @@ theorem unprotected_bucket_roundtrip_csig_needs_label :
   refine ⟨hv, ?_, ?_⟩
   · have hv' : encCfg.validate [(GoVal.int .i64 99, cs2)] false = true := hv
     simp [encodeBucket, hv', encodePairs, encodeAny, cs2_enc, cs2Bytes, lbl, encInt, encHead,
-      HW.shortest, headBytes, sortPairs, concatPairs]
+      HW.shortest, headBytes, sortPairs, concatPairs, wellformedNoTags, parseTop, fuelFor,
+      parseItem, parseItems, parsePairs, parseHead, maxNested, maxElems]
   · simp [Unprotected.unmarshal, parseTop, parseItem, parsePairs, parseItems, fuelFor, parseHead,
       maxNested, maxElems, Wire.hasTag, Wire.hasTagPairs, Wire.hasTagList, decUnprot, labelsOK,
       maxInt64, GoVal.keyEq, decUnprotPairs, decodeAny, decodeList, decodePairs, isCsigLabel,
